@@ -325,6 +325,10 @@ class Db:
         q = th.query(tf, a["q"], self.cache)
         static = entry.endswith("_static")
         kw = {name: value} if static else {name: (lambda old, v=value: v)}
+        companion = a.get("with", "none")
+        if companion != "none" and companion != name:
+            kw[companion] = {"time": th.val("time", 5), "measurement": th.val("meas", 2),
+                             "tags": {th.key("tag", 2): th.val("tag", 2)}, "fields": {th.key("field", 2): th.val("field", 2)}}[companion]
         if entry.startswith("update_all"):
             return db.update_all(**kw)
         if entry.startswith("handle_"):
